@@ -37,8 +37,23 @@ def _vec(a):
     return [float(v) for v in np.asarray(a, dtype=float).reshape(-1)]
 
 
+class _MarkDict(dict):
+    """optim_state with a counter of writes to 'iter' (one per main-loop pass while the tracer's run is inside optimize())."""
+    def __init__(self, d, state):
+        super().__init__(d)
+        self._st = state
+
+    def __setitem__(self, k, v):
+        if k == "iter" and self._st.get("in_optimize"):
+            self._st["iter_marks"] = self._st.get("iter_marks", 0) + 1
+        super().__setitem__(k, v)
+
+    def __reduce__(self):
+        return (dict, (dict(self),))
+
+
 def run_traced(spec, fault=None, gp_faults=None, predict_faults=None, ei_script=None, max_filt_rows=600, want=("call", "filt", "ctl", "hist", "gp"),
-               es_script=None, iter_cap=None, update_faults=None):
+               es_script=None, iter_cap=None, update_faults=None, add_faults=None):
     """Execute one run described by `spec`; returns a picklable trace dict."""
     import logging
     # logging stays ENABLED (the display levels 'iter' / 'full' are options like any other and switch code paths on), its output goes nowhere
@@ -67,7 +82,7 @@ def run_traced(spec, fault=None, gp_faults=None, predict_faults=None, ei_script=
 
     fun, x0, lb, ub, plb, pub, cons_fn, opts, aux = gen.build(spec, fault=fault)
     ev = []
-    tr = {"spec": spec, "fault": fault, "gp_faults": gp_faults, "predict_faults": predict_faults, "ei_script": ei_script, "es_script": es_script, "update_faults": update_faults, "events": ev, "error": None, "result": None,
+    tr = {"spec": spec, "fault": fault, "gp_faults": gp_faults, "predict_faults": predict_faults, "ei_script": ei_script, "es_script": es_script, "update_faults": update_faults, "add_faults": add_faults, "events": ev, "error": None, "result": None,
           "hdr": None, "final": None, "log": None, "constructed": False}
     state = {"phase": ["pre"], "bads": None, "loop": 0, "gpfit_idx": 0, "cons_calls": []}
 
@@ -375,8 +390,8 @@ def run_traced(spec, fault=None, gp_faults=None, predict_faults=None, ei_script=
         patch(IterationHistory, "record", w_rec)
 
     # ---- GP training sets / acquisition -------------------------------------------------------
-    if "gp" in want or gp_faults or update_faults:
-        _install_gp_wrappers(patch, state, ev, bb, gpt, es, gp_faults, update_faults)
+    if "gp" in want or gp_faults or update_faults or add_faults:
+        _install_gp_wrappers(patch, state, ev, bb, gpt, es, gp_faults, update_faults, add_faults)
     if predict_faults:
         # non-finite GP prediction at the incumbent: the k-th call of _get_target_from_gp_ sees NaN predictions
         import gpyreg as gpr
@@ -410,6 +425,9 @@ def run_traced(spec, fault=None, gp_faults=None, predict_faults=None, ei_script=
             b = BADS(fun, x0, lb, ub, plb, pub, non_box_cons=cons_wrapped, options=opts)
             state["bads"] = b
             tr["constructed"] = True
+            # an independent count of main-loop passes: every pass starts by writing optim_state['iter'] (the ITER events hang on the refresh of
+            # the search bounds, which a change to the loop could skip)
+            b.optim_state = _MarkDict(b.optim_state, state)
             vt = b.var_transf
             # reference internal box: a FRESH transformer built from copies of the normalised original bounds (whatever the run does to its
             # own bound arrays later cannot reach it)
@@ -435,7 +453,11 @@ def run_traced(spec, fault=None, gp_faults=None, predict_faults=None, ei_script=
                                             "search_size_locked", "search_mesh_expand", "poll_mesh_multiplier", "init_mesh_size_integer", "n_search", "n_search_iter",
                                             "final_quantile", "n_train_max", "n_train_min", "buffer_ntrain", "gp_radius", "specify_target_noise", "hedge_gamma", "cache_size",
                                             "force_poll_mesh", "nonlinear_scaling", "noise_size")}}
-            res = b.optimize()
+            state["in_optimize"] = True
+            try:
+                res = b.optimize()
+            finally:
+                state["in_optimize"] = False
             tr["result"] = {k: (_f(res[k]) if k in ("x", "x0", "fval", "fsd", "mesh_size", "yval_vec", "ysd_vec") and res[k] is not None else
                                 (res[k] if isinstance(res[k], (int, float, str, bool, type(None))) else repr(type(res[k]))))
                             for k in res.keys()}
@@ -457,6 +479,7 @@ def run_traced(spec, fault=None, gp_faults=None, predict_faults=None, ei_script=
                          "Y": _vec(fl.Y[:n]), "S": _vec(fl.S[:n]) if fl.noise_flag else None,
                          "n_evals": _vec(fl.n_evals[:n]), "X_flag": [bool(v) for v in fl.X_flag[:n]]}
             tr["final"] = {"target_calls": aux["calls"]["n"], "xs": [_vec(x) for x in aux["calls"]["xs"]],
+                           "iter_marks": int(state.get("iter_marks", 0)),
                            "u": _vec(b.u) if hasattr(b, "u") else None,
                            "x": _vec(b.x) if hasattr(b, "x") else None,
                            "x_ginv": _vec(b.var_transf.ginv(np.atleast_2d(np.asarray(b.u, dtype=float)))) if hasattr(b, "x") else None,
@@ -484,7 +507,7 @@ def run_traced(spec, fault=None, gp_faults=None, predict_faults=None, ei_script=
     return tr
 
 
-def _install_gp_wrappers(patch, state, ev, bb, gpt, es, gp_faults, update_faults=None):
+def _install_gp_wrappers(patch, state, ev, bb, gpt, es, gp_faults, update_faults=None, add_faults=None):
     """GPFIT/ACQ events (C15) and LinAlgError injection into GP.fit (C16)."""
     import gpyreg as gpr
     GP = gpr.GP
@@ -560,7 +583,7 @@ def _install_gp_wrappers(patch, state, ev, bb, gpt, es, gp_faults, update_faults
             ss = np.asarray(f_s, dtype=float).reshape(-1)
             n = len(zz)
             idx = list(range(n)) if n <= 64 else sorted(set([0, n - 1, int(np.argmin(zz))] + list(range(0, n, max(1, n // 32)))))
-            ev.append(("ACQ", {"site": tag, "phase": state["phase"][-1], "n": n, "D": int(np.atleast_2d(xi).shape[1]), "fc": int(func_count),
+            ev.append(("ACQ", {"site": tag, "phase": state["phase"][-1], "n": n, "n_xi": int(np.atleast_2d(xi).shape[0]), "D": int(np.atleast_2d(xi).shape[1]), "fc": int(func_count),
                                "sqrt_beta_arg": None if sqrt_beta is None else repr(sqrt_beta),
                                "idx": idx, "z": [float(zz[i]) for i in idx], "mu": [float(mm[i]) for i in idx], "s": [float(ss[i]) for i in idx],
                                "argmin": int(np.argmin(zz)) if n else None,
@@ -591,6 +614,22 @@ def _install_gp_wrappers(patch, state, ev, bb, gpt, es, gp_faults, update_faults
             raise
 
     patch(GP, "fit", w_fit)
+
+    if add_faults:
+        # LinAlgError in the k-th posterior update made by add_and_update_gp (adding one evaluated point to the surrogate)
+        o_upd_a = GP.update
+
+        def w_upd_a(self, *a, **kw):
+            import sys as _sys
+            if _sys._getframe(1).f_code.co_name == "add_and_update_gp":
+                k = state.setdefault("addupd_idx", 0)
+                state["addupd_idx"] = k + 1
+                if k in add_faults:
+                    ev.append(("ADDFAULT", {"k": k, "phase": state["phase"][-1]}))
+                    raise np.linalg.LinAlgError("injected: posterior update failed while adding a point")
+            return o_upd_a(self, *a, **kw)
+
+        patch(GP, "update", w_upd_a)
 
     if update_faults:
         # LinAlgError in the k-th posterior update `gp.update(hyp=...)` made inside local_gp_fitting (Cholesky failure of the posterior)
